@@ -226,7 +226,7 @@ def run_fn():
   if len(body) != 2 or not isinstance(body[0], ast.If) or not isinstance(body[1], ast.Return):
     raise TranslatorError('_function_to_json: expected `if <tests>: return {... code ...}` then `return {... name ...}`')
   first, second = body[0], body[1]
-  if not (len(first.body) >= 1 and isinstance(first.body[-1], ast.Return) and "'code'" in _src(first.body[-1])
+  if not (len(first.body) >= 1 and isinstance(first.body[-1], ast.Return) and any("'code'" in _src(st) for st in first.body)
           and "'code'" not in _src(second)):
     raise TranslatorError('_function_to_json: the branches are not (by code, by name)')
   test = first.test
@@ -240,6 +240,48 @@ def run_fn():
       nested = True
     else:
       raise TranslatorError(f'_function_to_json: unrecognised test {text!r}')
+  # the loader: is a function rebuilt from code remembered in a process-level table?
+  ld = None
+  for n in tree.body:
+    if isinstance(n, ast.FunctionDef) and n.name == '_function_from_json':
+      ld = n
+  if ld is None:
+    raise TranslatorError('_function_from_json not found')
+  branch = [s for s in ld.body if isinstance(s, ast.If) and "'code' in json_value" in _src(s.test)]
+  if len(branch) != 1:
+    raise TranslatorError("_function_from_json: expected exactly one `if 'code' in json_value:`")
+  module_names = {t.id for st in tree.body if isinstance(st, (ast.Assign, ast.AnnAssign))
+                  for t in (st.targets if isinstance(st, ast.Assign) else [st.target]) if isinstance(t, ast.Name)}
+  used = {x.id for st in branch[0].body for x in ast.walk(st) if isinstance(x, ast.Name)}
+  memo = sorted(n for n in used & module_names if n.startswith('_') and n.isupper() or n == '_LOADED_SYMBOLS')
+  if 'FunctionType' not in _src(branch[0]):
+    raise TranslatorError('_function_from_json: the code branch does not build a types.FunctionType')
+  # class methods: is the written name built from the class the method is bound to (`f.__self__`)
+  # or from the function's own `__qualname__` (which names the DEFINING class)?
+  mt = None
+  for n in tree.body:
+    if isinstance(n, ast.FunctionDef) and n.name == '_method_to_json':
+      mt = n
+  if mt is None:
+    raise TranslatorError('_method_to_json not found')
+  rets = [x for x in ast.walk(mt) if isinstance(x, ast.Return) and isinstance(x.value, ast.Dict)]
+  if len(rets) != 1:
+    raise TranslatorError('_method_to_json: expected exactly one `return {...}`')
+  name_expr = None
+  for k, v in zip(rets[0].value.keys, rets[0].value.values):
+    if isinstance(k, ast.Constant) and k.value == 'name':
+      name_expr = v
+  if name_expr is None:
+    raise TranslatorError("_method_to_json: no 'name' entry")
+  if isinstance(name_expr, ast.Name):       # the last assignment to that variable decides
+    assigns = [x for x in ast.walk(mt) if isinstance(x, ast.Assign) and any(
+        isinstance(t, ast.Name) and t.id == name_expr.id for t in x.targets)]
+    if not assigns:
+      raise TranslatorError('_method_to_json: the name variable is never assigned')
+    name_expr = max(assigns, key=lambda x: x.lineno).value
+  uses_self = any(isinstance(x, ast.Attribute) and x.attr == '__self__' for x in ast.walk(name_expr))
+  if not uses_self and _src(name_expr) != '_type_name(f)':
+    raise TranslatorError('_method_to_json: unrecognised name expression ' + _src(name_expr))
   text = '\n'.join([
       '/- GENERATED by translate/t_c05.py (run_fn) from ' + JSON_CONVERSION + '. Do not edit. -/',
       'import PgModel.C05Fn',
@@ -248,8 +290,17 @@ def run_fn():
       '/-- The tests of `_function_to_json` that send a function to the "by code" branch. -/',
       'def fnTests : FnTests := ⟨%s, %s⟩' % (common.lean_bool(lam), common.lean_bool(nested)),
       '',
+      '/-- Does `_function_from_json` keep functions rebuilt from code in a process-level table',
+      '(module-level names it touches in that branch: %s)? -/' % (memo or 'none'),
+      'def fnLoadMemo : Bool := %s' % common.lean_bool(bool(memo)),
+      '',
+      '/-- Does `_method_to_json` name the class the method is BOUND to (`f.__self__`)? Otherwise the name',
+      'is `__qualname__` of the function: the class that DEFINES the method (`%s`). -/' % _src(name_expr),
+      'def fnMethodNamesBound : Bool := %s' % common.lean_bool(uses_self),
+      '',
       'end Pg.C05', ''])
-  sidecar = {'sources': {JSON_CONVERSION: common.sha(JSON_CONVERSION)}, 'lambda_name_test': lam, 'co_nested_test': nested}
+  sidecar = {'sources': {JSON_CONVERSION: common.sha(JSON_CONVERSION)}, 'lambda_name_test': lam, 'co_nested_test': nested,
+             'load_memo_tables': memo, 'method_names_bound_class': uses_self}
   changed = common.write_gen('C05Fn', text, sidecar)
   return {'changed': changed, 'sidecar': sidecar}
 
